@@ -697,6 +697,66 @@ fn random_escaped_names(src: &mut Src, obs: &mut Obs) -> Res {
     Ok(())
 }
 
+/// two DIFFERENT singular queries whose texts run together to the same characters once dots, brackets and
+/// quotes are taken away (`@.user.id` / `@.userid`, `@.l[1]` / `@.l1`, `@.m[1][2]` / `@.m[12]`): operands are
+/// what they select, not how they are spelled
+fn random_lookalike_operands(src: &mut Src, obs: &mut Obs) -> Res {
+    let vals = [J::Int(8), J::Int(9), J::Str("8".into()), J::Str("a".into()), J::Null, J::Bool(true), J::Float(8.0), J::Arr(vec![J::Int(8)])];
+    let mut val = |src: &mut Src| -> Option<J> {
+        if src.chance(1, 5) {
+            None
+        } else {
+            Some(src.pick(&vals).clone())
+        }
+    };
+    let n = 1 + src.below(4);
+    let mut rows = vec![];
+    for _ in 0..n {
+        let mut m: Vec<(String, J)> = vec![];
+        let mut put = |m: &mut Vec<(String, J)>, k: &str, v: Option<J>| {
+            if let Some(v) = v {
+                m.push((k.to_string(), v));
+            }
+        };
+        // user.id next to userid; l[1] next to l1; m[1][2] next to m[12]
+        let uid = val(src);
+        put(&mut m, "user", Some(J::Obj(uid.into_iter().map(|v| ("id".to_string(), v)).collect())));
+        put(&mut m, "userid", val(src));
+        let l1 = val(src).unwrap_or(J::Null);
+        put(&mut m, "l", Some(J::Arr(vec![J::Int(0), l1])));
+        put(&mut m, "l1", val(src));
+        let deep = val(src).unwrap_or(J::Int(1));
+        let mut big: Vec<J> = (0..13).map(|i| J::Int(100 + i)).collect();
+        big[1] = J::Arr(vec![J::Int(0), J::Int(1), deep]);
+        if let Some(v) = val(src) {
+            big[12] = v;
+        }
+        put(&mut m, "m", Some(J::Arr(big)));
+        rows.push(J::Obj(m).sorted());
+    }
+    let doc = J::Arr(rows);
+    let pairs = [
+        ("@.user.id", "@.userid"),
+        ("@.userid", "@.user.id"),
+        ("@['user']['id']", "@.userid"),
+        ("@.l[1]", "@.l1"),
+        ("@.l1", "@.l[1]"),
+        ("@.m[1][2]", "@.m[12]"),
+        ("$[0].user.id", "$[0].userid"),
+        ("@.user.id", "$[0].userid"),
+        ("value(@.user.id)", "value(@.userid)"),
+        ("length(@.user.id)", "length(@.userid)"),
+        // control: really the same operand
+        ("@.user.id", "@['user'].id"),
+    ];
+    let (a, b) = *src.pick(&pairs);
+    let op = src.pick(&Op::ALL).text();
+    let text = format!("$[?{} {} {}]", a, op, b);
+    obs.label("lookalike-operands");
+    obs.nontrivial(&(text.as_str(), doc.text()), || json!({"query": text, "doc": doc.to_value()}));
+    direct(&json!({"query": text, "doc": doc.to_value()}), obs)
+}
+
 fn direct(case: &Value, obs: &mut Obs) -> Res {
     // {"query": "...", "doc": ..., } : the filter must keep exactly the nodes the reference evaluator keeps
     let (q, text, doc) = crate::props::c01::parse_direct(case)?;
@@ -740,6 +800,7 @@ pub fn prop() -> Prop {
             Sub { name: "random-number-laws", kind: Kind::Random { f: random_number_laws, quick: 40_000, thorough: 800_000, len: 32 } },
             Sub { name: "random-big-integers", kind: Kind::Random { f: random_big_integers, quick: 40_000, thorough: 800_000, len: 32 } },
             Sub { name: "random-escaped-names", kind: Kind::Random { f: random_escaped_names, quick: 40_000, thorough: 800_000, len: 100 } },
+            Sub { name: "random-lookalike-operands", kind: Kind::Random { f: random_lookalike_operands, quick: 40_000, thorough: 800_000, len: 100 } },
             Sub { name: "random-escaped-literals", kind: Kind::Random { f: random_escaped_literals, quick: 40_000, thorough: 800_000, len: 64 } },
         ],
         direct: Some(direct),
